@@ -37,7 +37,7 @@ inductive Seg where
 inductive Prog where
   | tail
   | send (c : Cmd) (k : Prog)
-  | expect (waitMsg re : Str) (pw : Bool) (k : Str → Prog)
+  | expect (waitMsg re : Str) (pw : Bool) (ok : Str → Bool) (k : Str → Prog)
   | setLog (l : Option Log) (k : Prog)
   | abort (msg : Str)
 
@@ -66,16 +66,21 @@ def cutPassword : Str → Str × Str
     if prefixCI "password:".toList (c :: r) then ((c :: r).take 9, (c :: r).drop 9)
     else ((cutPassword r).1.cons c, (cutPassword r).2)
 
+/-- The chunk ends with `password:` (any case): the alternative `(?i)password:` of the awaited
+expression has matched. -/
+def isPwPrompt (out : Str) : Bool := prefixCI "password:".toList.reverse out.reverse
+
 /-- Execute a program against the segments the device supplies; `left` is what an earlier expect
 left in the buffer. -/
 def run (pass errText : Str) : Prog → Str → List Seg → RunOut
   | .tail, _, segs => ⟨[], segs, true⟩
   | .send c k, left, segs => (run pass errText k left segs).cons (.send (c.text pass))
-  | .expect w re pw k, left, segs =>
+  | .expect w re pw ok k, left, segs =>
     match segs with
     | .full s :: r =>
       let cut := if pw then cutPassword (left ++ s) else (left ++ s, [])
-      (run pass errText (k (crlf2lf cut.1)) cut.2 r).cons (.expect cut.1)
+      if ok (crlf2lf cut.1) then (run pass errText (k (crlf2lf cut.1)) cut.2 r).cons (.expect cut.1)
+      else ⟨[.expect cut.1, waitAbort w re errText], r, false⟩
     | .part s :: r => ⟨[.expect (left ++ s), waitAbort w re errText], r, false⟩
     | [] => ⟨[.expect left, waitAbort w re errText], [], false⟩
   | .setLog l k, left, segs => (run pass errText k left segs).cons (.setLog l)
@@ -134,7 +139,10 @@ def wrongName (got want : Str) : Str :=
 /-! ## `console.Conn` -/
 
 /-- `IssueCmd`. -/
-def issue (c : Cmd) (re : Str) (k : Str → Prog) (pw : Bool := false) : Prog := .send c (.expect waitMsg re pw k)
+def anyOut (_ : Str) : Bool := true
+
+def issue (c : Cmd) (re : Str) (k : Str → Prog) (pw : Bool := false) (ok : Str → Bool := anyOut) : Prog :=
+  .send c (.expect waitMsg re pw ok k)
 
 /-- `SendCmd`. -/
 def sendCmd (re cmd : Str) (k : Prog) : Prog := issue (.lit cmd) re fun _ => k
@@ -157,37 +165,67 @@ def reHash : Str := "#[ ]?".toList
 /-- Force a new prompt with the empty command, derive the prompt expression. -/
 def ciscoPrompt (k : Str → Prog) : Prog := issue (.lit []) reHash fun out => k (promptRE out)
 
+/-- `(?i)password:|\n\r?[^#> ]+[>#] ?$` has matched: the chunk ends with a password prompt or with a
+command prompt. -/
+def okCiscoStd (o : Str) : Bool := isPwPrompt o || endsT o ['>'] || endsT o ['#']
+
+/-- `(?i)password:|\(yes/no.*\)\?` has matched. -/
+def okCiscoLogin (o : Str) : Bool := isPwPrompt o || endsT o ['?']
+
+/-- Login password, `enable`, and — only if the device then asks for a password (fix d8ddbd1) — the
+login password once more as enable password. -/
 def ciscoAuth (k : Str → Prog) : Prog :=
-  issue .pass reCiscoStd (pw := true) fun o1 =>
+  issue .pass reCiscoStd (pw := true) (ok := okCiscoStd) fun o1 =>
     if endsT o1 ['>'] then
-      issue (.lit "enable".toList) reCiscoStd (pw := true) fun o2 =>
+      issue (.lit "enable".toList) reCiscoStd (pw := true) (ok := okCiscoStd) fun o2 =>
         if endsT o2 ['#'] then ciscoPrompt k
-        else issue .pass reCiscoStd (pw := true) fun o3 =>
+        else if isPwPrompt o2 then
+          issue .pass reCiscoStd (pw := true) (ok := okCiscoStd) fun o3 =>
+            if endsT o3 ['#'] then ciscoPrompt k
+            else .abort "Authentication for enable mode failed".toList
+        else .abort "Authentication for enable mode failed".toList
+    else if endsT o1 ['#'] then ciscoPrompt k
+    else .abort "Authentication failed".toList
+
+/-- The code before fix d8ddbd1: whenever `enable` did not lead to `#` the login password was sent,
+also at a command prompt (kept for the counterexample F-C17b). -/
+def ciscoAuthOld (k : Str → Prog) : Prog :=
+  issue .pass reCiscoStd (pw := true) (ok := okCiscoStd) fun o1 =>
+    if endsT o1 ['>'] then
+      issue (.lit "enable".toList) reCiscoStd (pw := true) (ok := okCiscoStd) fun o2 =>
+        if endsT o2 ['#'] then ciscoPrompt k
+        else issue .pass reCiscoStd (pw := true) (ok := okCiscoStd) fun o3 =>
           if endsT o3 ['#'] then ciscoPrompt k
           else .abort "Authentication for enable mode failed".toList
     else if endsT o1 ['#'] then ciscoPrompt k
     else .abort "Authentication failed".toList
 
-def ciscoLogin (k : Str → Prog) : Prog :=
-  .expect waitLoginMsg reCiscoLogin true fun o =>
-    if endsT o ['?'] then issue (.lit "yes".toList) reCiscoPass (pw := true) fun _ => ciscoAuth k
-    else ciscoAuth k
+def ciscoLoginWith (auth : (Str → Prog) → Prog) (k : Str → Prog) : Prog :=
+  .expect waitLoginMsg reCiscoLogin true okCiscoLogin fun o =>
+    if endsT o ['?'] then issue (.lit "yes".toList) reCiscoPass (pw := true) (ok := isPwPrompt) fun _ => auth k
+    else auth k
+
+def ciscoLogin (k : Str → Prog) : Prog := ciscoLoginWith ciscoAuth k
 
 /-! ## `LoadDevice` of the three back ends -/
+
+/-- ASA: `logVersion`, `checkDeviceName`, then the configuration to `.config`. -/
+def asaK2 (host re : Str) : Prog :=
+  getCmd re "sh ver".toList fun _ =>
+    getCmd re "show hostname".toList fun o =>
+      if trimSuffixNl o ≠ host then .abort (wrongName (trimSuffixNl o) host)
+      else .setLog (some .config) (getCmd re "write term".toList fun _ => .tail)
+
+/-- ASA `setTerminal`, second half: terminal width. -/
+def asaK1 (host re : Str) : Prog :=
+  getCmd re "sh term".toList fun o2 =>
+    if containsStr "511".toList o2 then asaK2 host re
+    else sendCmd re "configure terminal".toList (sendCmd re "terminal width 511".toList (sendCmd re "end".toList (asaK2 host re)))
 
 def asaLoad (host : Str) : Prog :=
   ciscoLogin fun re =>
     getCmd re "sh pager".toList fun o1 =>
-      let k1 : Prog :=
-        getCmd re "sh term".toList fun o2 =>
-          let k2 : Prog :=
-            getCmd re "sh ver".toList fun _ =>
-              getCmd re "show hostname".toList fun o =>
-                if trimSuffixNl o ≠ host then .abort (wrongName (trimSuffixNl o) host)
-                else .setLog (some .config) (getCmd re "write term".toList fun _ => .tail)
-          if containsStr "511".toList o2 then k2
-          else sendCmd re "configure terminal".toList (sendCmd re "terminal width 511".toList (sendCmd re "end".toList k2))
-      if containsStr "no pager".toList o1 then k1 else sendCmd re "terminal pager 0".toList k1
+      if containsStr "no pager".toList o1 then asaK1 host re else sendCmd re "terminal pager 0".toList (asaK1 host re)
 
 def iosLoad (host : Str) : Prog :=
   ciscoLogin fun re =>
@@ -197,6 +235,12 @@ def iosLoad (host : Str) : Prog :=
           let name := trimSuffixHash (trimSpace o)
           if name ≠ host then .abort (wrongName name host)
           else .setLog (some .config) (getCmd re "sh run".toList fun _ => .tail)))
+
+/-- IOS with the login code before fix d8ddbd1 (counterexample only). -/
+def iosLoadOld : Prog :=
+  ciscoLoginWith ciscoAuthOld fun re =>
+    sendCmd re "term len 0".toList (sendCmd re "term width 512".toList
+      (getCmd re "sh ver".toList fun _ => .tail))
 
 def reLinStd : Str := "\\r\\n\\S*\\s?[%>$#]\\s?(?:\\x27\\S*)?".toList
 def reLinPass : Str := reLinStd ++ "|(?i)password:".toList
@@ -215,15 +259,22 @@ def linuxRest (host banner : Str) : Prog :=
                 (getCmd reLinPrompt "iptables-save".toList fun _ =>
                   getCmd reLinPrompt "ip route show".toList fun _ => .tail)
 
+/-- `strings.HasSuffix(out, "word:")`. -/
+def endsWord (o : Str) : Bool := "word:".toList.reverse.isPrefixOf o.reverse
+
+/-- The awaited expression of the Linux login has matched: if the chunk ends in `word:` it is the
+alternative `(?i)password:` that matched (the others end in one of `% > $ #`, a blank or `)?`). -/
+def okLinux (o : Str) : Bool := isPwPrompt o || !endsWord o
+
 def linuxAfterYes (host banner : Str) (o : Str) : Prog :=
-  if endsT o "word:".toList then
-    issue .pass reLinPass (pw := true) fun o2 =>
-      if endsT o2 "word:".toList then .abort "Authentication failed".toList else linuxRest host banner
+  if endsWord o then
+    issue .pass reLinPass (pw := true) (ok := okLinux) fun o2 =>
+      if endsWord o2 then .abort "Authentication failed".toList else linuxRest host banner
   else linuxRest host banner
 
 def linuxLoad (host banner : Str) : Prog :=
-  .expect waitLoginMsg reLinLogin true fun o =>
-    if endsT o ['?'] then issue (.lit "yes".toList) reLinPass (pw := true) fun o' => linuxAfterYes host banner o'
+  .expect waitLoginMsg reLinLogin true okLinux fun o =>
+    if endsT o ['?'] then issue (.lit "yes".toList) reLinPass (pw := true) (ok := okLinux) fun o' => linuxAfterYes host banner o'
     else linuxAfterYes host banner o
 
 inductive DevType where | asa | ios | linux
@@ -234,6 +285,36 @@ def loadProg (dt : DevType) (host banner : Str) : Prog :=
   | .asa => asaLoad host
   | .ios => iosLoad host
   | .linux => linuxLoad host banner
+
+/-! ## devices that echo
+
+Chunk level: the device supplies, per expect, the text it writes (line ends already `\n`), whether
+it first echoes the line it has just received, and what of its previous output (blanks behind a
+prompt) still stands in front of that echo.  A real device echoes commands and does not echo
+what is typed at its password prompts. -/
+
+abbrev EDev := List (Str × Str × Bool)
+
+def runE (pass : Str) : Prog → Str → EDev → List Op
+  | .tail, _, _ => []
+  | .send c k, _, dev => .send (c.text pass) :: runE pass k (c.text pass) dev
+  | .expect w re _ ok k, last, dev =>
+    match dev with
+    | (pre, t, e) :: r =>
+      let out := (if e then pre ++ last ++ ['\n'] else []) ++ t
+      if ok out then .expect out :: runE pass (k out) [] r
+      else [.expect out, waitAbort w re []]
+    | [] => [waitAbort w re []]
+  | .setLog l k, last, dev => .setLog l :: runE pass k last dev
+  | .abort m, _, _ => [.abort m]
+
+/-- The device never echoes what it receives right after a password prompt: whenever an element
+says "echo", the text before it does not end in `password:`. -/
+def noEchoAtPasswordPrompt : EDev → Bool
+  | [] => true
+  | [_] => true
+  | (_, t, _) :: (pre', t', e') :: r =>
+    (!e' || !isPwPrompt t) && noEchoAtPasswordPrompt ((pre', t', e') :: r)
 
 /-! ## the whole session -/
 
